@@ -4,27 +4,42 @@ import (
 	"fmt"
 	"testing"
 	"testing/synctest"
+
+	"go.6river.tech/mmmbbb/grpc/pubsubpb"
+	"go.6river.tech/mmmbbb/services"
 )
 
-func TestDebugSweep(t *testing.T) {
+func TestDebugList(t *testing.T) {
 	synctest.Test(t, func(t *testing.T) {
 		w := NewWorld(t, 1)
 		defer w.Close()
-		w.Exec(Op{K: "create_topic", Topic: "t1"})
-		w.Exec(Op{K: "create_topic", Topic: "d"})
-		w.Exec(Op{K: "create_sub", Sub: "a", Cfg: &SubCfg{Topic: "t1", TTL: 3600 * Sec, MTTL: 600 * Sec, MaxAtt: 1, DLT: "d"}})
-		w.Exec(Op{K: "create_sub", Sub: "dl", Cfg: &SubCfg{Topic: "d", TTL: 3600 * Sec, MTTL: 600 * Sec}})
-		w.Exec(Op{K: "publish", Topic: "t1", Msgs: []MsgSpec{{N: 0}}})
-		w.Exec(Op{K: "pull", Sub: "a", Max: 1})
-		w.Exec(Op{K: "advance", D: 30 * Sec})
-		r := w.Exec(Op{K: "dl_sweep", Max: 3})
-		for _, s := range r.Stmts {
-			fmt.Printf("%s %s %v\n", s.Kind, s.SQL, s.Args)
-		}
-		for _, l := range w.Lines {
-			if l[:4] != "dump" {
-				fmt.Println(l)
+		pub := services.NewPublisherServerForVerif(w.Client)
+		sub := services.NewSubscriberServerForVerif(w.Client)
+		for _, n := range []string{"projects/p/topics/a", "projects/P/topics/b", "projects/p1/topics/c", "projects/p_/topics/d", "projects/p%/topics/e", "projects/é/topics/f"} {
+			if _, err := pub.CreateTopic(w.Ctx, &pubsubpb.Topic{Name: n}); err != nil {
+				t.Fatal(err)
 			}
 		}
+		for _, pr := range []string{"projects/p", "projects/P", "projects/p1", "projects/p_", "projects/p%", "projects/é", "projects/"} {
+			r, err := pub.ListTopics(w.Ctx, &pubsubpb.ListTopicsRequest{Project: pr})
+			if err != nil {
+				t.Fatal(err)
+			}
+			var names []string
+			for _, x := range r.Topics {
+				names = append(names, x.Name)
+			}
+			fmt.Println(pr, "->", names)
+		}
+		if _, err := sub.CreateSubscription(w.Ctx, &pubsubpb.Subscription{Name: "projects/p/subscriptions/s", Topic: "projects/p/topics/a"}); err != nil {
+			t.Fatal(err)
+		}
+		if _, err := sub.CreateSnapshot(w.Ctx, &pubsubpb.CreateSnapshotRequest{Name: "projects/p/snapshots/n", Subscription: "projects/p/subscriptions/s"}); err != nil {
+			t.Fatal(err)
+		}
+		r2, err := sub.ListSnapshots(w.Ctx, &pubsubpb.ListSnapshotsRequest{Project: "projects/p"})
+		fmt.Println("snapshots p:", r2, err)
+		r3, err := sub.ListSubscriptions(w.Ctx, &pubsubpb.ListSubscriptionsRequest{Project: "projects/P"})
+		fmt.Println("subs P:", r3, err)
 	})
 }
